@@ -745,3 +745,15 @@ func init() {
 		return p
 	}
 }
+
+func init() {
+	// "pause": the mixed family with long goroutine pauses (a stalled process, GC, VM steal: the
+	// classic fencing scenario) at yield sites. Only oracles without timing bounds judge it.
+	families["pause"] = func(r *Rng) *Plan {
+		p := families["mixed"](r)
+		p.Judge = []string{"C01", "C05", "C10"}
+		p.Sched = SchedCfg{YieldProb: Pick(r, []float64{0.02, 0.05, 0.15}), StallMax: Pick(r, []time.Duration{p.H, p.TTL, 2 * p.TTL})}
+		p.Until += 2 * p.TTL
+		return p
+	}
+}
